@@ -176,6 +176,7 @@ def shim_file(meta, pkgname, pkgdir):
     L.append("func VerifNumSymbols() int { return %d }" % len(meta["syms"]))
     L.append("func VerifFinal(input int) int { return [...]int{%s}[input] }" % ", ".join(map(str, meta["final_states"])))
     L.append("func VerifNumInputs() int { return %d }" % len(meta["final_states"]))
+    L.append("func VerifStart(input int) int { return input }")
     L.append("func VerifGoto(state int, sym int32) int { return int(gotoState(%s(state), sym)) }" % st)
     if meta.get("has_lalr") and not meta["optimized"]:
         L.append("""// VerifExplicitError: the lookahead table lists an error for (state, sym) (a %nonassoc conflict resolution).
@@ -248,3 +249,14 @@ def pair_data_file(g, metaA, metaB, pkgname):
         L.append("func verifParse%s(p *%s.Parser, l *%s.Lexer, input int) error {\n\tswitch input {\n%s\n\t}\n\tpanic(\"bad input index\")\n}" % (which, which, which, "\n".join(cases)))
     L.append("func verifNonassocError(s int, x int32) bool { return A.VerifExplicitError(s, x) }")
     return "\n".join(L) + "\n"
+
+
+def ordered_rules(g):
+    """Rules in the order the .tm printer emits them (grouped by left-hand side in order of first appearance)."""
+    order, by = [], {}
+    for lhs, rhs in g["rules"]:
+        if lhs not in by:
+            by[lhs] = []
+            order.append(lhs)
+        by[lhs].append((lhs, rhs))
+    return [r for lhs in order for r in by[lhs]]
